@@ -1902,9 +1902,26 @@ impl HWorld {
         while let Some(h) = self.live.pop() {
             let _ = cl.release(&self.rw.w.subj, h.node, h.fh, h.flags as u32, h.dir);
         }
-        let nodes: Vec<(u64, u64)> = self.rw.nodes.iter().map(|(k, v)| (*k, v.count)).collect();
-        for (n, c) in nodes {
-            if c > 0 {
+        let nodes: Vec<(u64, u64)> = self.rw.nodes.iter().map(|(k, v)| (*k, v.count)).filter(|(_, c)| *c > 0).collect();
+        if nodes.iter().any(|(_, c)| *c >= 2 && *c <= 16) {
+            // several references to one inode: they go back one by one in a single BATCH_FORGET whose records for the same
+            // inode are interleaved with the others (the kernel queues one record per eviction)
+            let mut items: Vec<(u64, u64)> = Vec::new();
+            for round in 0..16u64 {
+                for (n, c) in &nodes {
+                    if *c <= 16 && *c > round {
+                        items.push((*n, 1));
+                    }
+                }
+            }
+            for (n, c) in &nodes {
+                if *c > 16 {
+                    items.push((*n, *c));
+                }
+            }
+            cl.batch_forget(&self.rw.w.subj, &items);
+        } else {
+            for (n, c) in nodes {
                 cl.forget(&self.rw.w.subj, n, c);
             }
         }
